@@ -39,7 +39,8 @@ THEOREMS = [
 RULE = (
     "histories of 3-9 API operations (as C01, no intermediate re-open); for each history every crash point k in 0..n (quick: a "
     "random sample of 3 per history) x ending in {exception escapes the with-block, normal exit, explicit close, helper re-opening "
-    "in the other mode}; distinct by hash of (ops, k, ending); non-trivial when k >= 2 and at least one of the completed operations "
+    "in the other mode afterwards, the operations run inside a helper that re-opens the closed workspace for writing and is left normally "
+    "or by an exception}; distinct by hash of (ops, k, ending); non-trivial when k >= 2 and at least one of the completed operations "
     "changed the tree"
 )
 ASSUMPTIONS = [
@@ -119,7 +120,18 @@ def run_one(ctx, idx, ops, k, ending):
     done = 0
     try:
         try:
-            with s.ws:
+            if ending in ("helper_exception", "helper_normal"):
+                # the operations run inside a helper that re-opens a closed workspace for writing
+                root0 = s.snap()
+                s.ws.close()
+                lines.append({"m": "life", "op": "close"})
+                expect.append({"out": "ok", "tree": root0, "mode": "closed"})
+                lines.append({"m": "life", "op": "open", "mode": "rw"})
+                expect.append({"out": "ok", "tree": root0, "mode": "rw"})
+                block = fetch_active_workspace(s.ws, mode="r+")
+            else:
+                block = s.ws
+            with block:
                 for op in ops[:k]:
                     n0 = len(s.lines)
                     s.apply(op)
@@ -130,7 +142,7 @@ def run_one(ctx, idx, ops, k, ending):
                     done += 1
                 held = [e for e in s.entities()]
                 live = s.snap()
-                if ending == "exception":
+                if ending in ("exception", "helper_exception"):
                     raise Boom()
                 if ending == "close":
                     s.ws.close()
@@ -140,7 +152,7 @@ def run_one(ctx, idx, ops, k, ending):
             # leave normally, then a helper re-opens in the other mode and closes again
             with fetch_active_workspace(s.ws, mode="r"):
                 pass
-        lines.append({"m": "life", "op": "crash" if ending == "exception" else "close"})
+        lines.append({"m": "life", "op": "crash" if ending in ("exception", "helper_exception") else "close"})
         expect.append({"out": "ok", "tree": live, "mode": "closed"})
         # 1. handle released
         if s.ws._geoh5:
@@ -219,7 +231,7 @@ def gen(ctx):
         if ctx.tier == "quick":
             ks = sorted(ctx.rng.sample(ks, min(3, len(ks))))
         for k in ks:
-            cases.append({"ops": ops, "k": k, "ending": ctx.rng.choice(["exception", "exception", "normal", "close", "helper"])})
+            cases.append({"ops": ops, "k": k, "ending": ctx.rng.choice(["exception", "exception", "normal", "close", "helper", "helper_exception", "helper_normal"])})
     return cases
 
 
